@@ -6,7 +6,7 @@ A HISTORY is one db_session:  s1 [m1] s2 [m2 s3]  - statements from the pool, op
 in-session modification (assign / create / delete / commit / rollback). Enumerated exhaustively:
     quick     all ordered pairs over the 20-statement core x {no modification, 5 modifications}, and every core
               statement before and after every other pool statement (no modification)
-    thorough  all ordered pairs over the whole pool x 6, and all ordered triples over the core x 6 x 6
+    thorough  all ordered pairs over the whole pool x 7, and all ordered triples over the core x 7 x 7
 plus two long histories (whole pool forward / backward) that run inside one pristine process each.
 
 ORACLE: every result observed in a history equals the result of THAT STATEMENT ALONE, after the same
@@ -280,7 +280,7 @@ def cold_ref(idx, modseq):
     return r
 
 # ---- enumeration ------------------------------------------------------------------------------------------
-MODS6 = (None,) + ('assign', 'create', 'delete', 'commit', 'rollback')
+MODS6 = (None,) + ('assign', 'create', 'delete', 'bulkdelete', 'commit', 'rollback')     # 7 with 'no modification'
 
 def modseqs(maxlen):
     out = [()]
@@ -534,8 +534,8 @@ def run(ctx):
     ctx.cov['modifications'] = list(MODS6[1:])
     ctx.cov['distinct_results'] = len(results)
     ctx.cov['distinct_pristine_answers'] = distinct_cold
-    ctx.cov['bounds'] = ('ordered pairs over the core x 6 modifications; every core statement before/after every other pool statement' if ctx.quick else
-                         'all ordered pairs over the pool x 6 modifications; all ordered triples over the core x 6 x 6 modifications')
+    ctx.cov['bounds'] = ('ordered pairs over the core x 7 modifications (none, assign, create, delete, bulk delete, commit, rollback); every core statement before/after every other pool statement' if ctx.quick else
+                         'all ordered pairs over the pool x 7 modifications; all ordered triples over the core x 7 x 7 modifications')
     minh = 5000 if ctx.quick else 200000
     known = core.load_known()
     found_new = any(core.match_known(known, ctx.prop, sig) is None for sig in ctx.found)
